@@ -141,6 +141,12 @@ def nrepSetter (nenv : Nat) (nrep : Nat ⊕ List Nat) : Option (List Nat) :=
   | .inl k => if 0 < k then some (List.replicate nenv k) else none
   | .inr l => if l.length == nenv && l.all (0 < ·) then some l else none
 
+/-- the `nenv` setter (l.201-206) called on a constructed object: it stores the new number of environments and nothing
+    else — the replicate array computed by the earlier `nrep` assignment keeps its old length (`none`: `nenv ≤ 0` is
+    rejected).  `phenotype` then zips `range(nenv)` with that array. -/
+def reassignNenv (nenv' : Nat) (cfg : Nat × List Nat) : Option (Nat × List Nat) :=
+  if 0 < nenv' then some (nenv', cfg.2) else none
+
 section top
 variable {G α : Type} [Add α]
 
@@ -239,6 +245,16 @@ def aggKeys (le : (L × Option G) → (L × Option G) → Bool) (useGrp : Bool) 
 def groupRows (useGrp : Bool) (recs : List (Rec L G α)) (k : L × Option G) : List (List α) :=
   (recs.filter (fun r => keyOf useGrp r = some k)).map (·.vals)
 
+/-- `agg_df` (l.138-144) for an arbitrary per-group aggregation `f` of the value rows: one row per key, in key order -/
+def aggWith {ρ : Type} (f : List (List α) → ρ) (le : (L × Option G) → (L × Option G) → Bool) (useGrp : Bool)
+    (recs : List (Rec L G α)) : List ((L × Option G) × ρ) :=
+  (aggKeys le useGrp recs).map (fun k => (k, f (groupRows useGrp recs k)))
+
+/-- `dict(zip(agg_df_taxa, range(len(agg_df_taxa))))[taxon]` then `agg_df_mat[ix,:]` (l.169, l.179-185):
+    the LAST aggregated row with that taxon name; `KeyError` ↦ row of NaN (`none`) -/
+def lookupLast {ρ : Type} (tbl : List ((L × Option G) × ρ)) (name : L) : Option ρ :=
+  ((tbl.filter (fun kv => kv.1.1 = name)).getLast?).map (·.2)
+
 variable [Add α] [Sub α] [Mul α] [Div α] [OfNat α 0] [OfNat α 1] [NatCast α]
 
 /-- `.agg({trait: "mean"})` on one group: per-column arithmetic mean (contract of pandas' groupby-mean) -/
@@ -248,12 +264,7 @@ def colMeans (t : Nat) (rows : List (List α)) : List α :=
 /-- `agg_df` (l.138-144) -/
 def agg (le : (L × Option G) → (L × Option G) → Bool) (useGrp : Bool) (t : Nat) (recs : List (Rec L G α)) :
     List ((L × Option G) × List α) :=
-  (aggKeys le useGrp recs).map (fun k => (k, colMeans t (groupRows useGrp recs k)))
-
-/-- `dict(zip(agg_df_taxa, range(len(agg_df_taxa))))[taxon]` then `agg_df_mat[ix,:]` (l.169, l.179-185):
-    the LAST aggregated row with that taxon name; `KeyError` ↦ row of NaN (`none`) -/
-def lookupLast (tbl : List ((L × Option G) × List α)) (name : L) : Option (List α) :=
-  ((tbl.filter (fun kv => kv.1.1 = name)).getLast?).map (·.2)
+  aggWith (colMeans t) le useGrp recs
 
 /-- rows of the breeding-value matrix when a genotype matrix is supplied: one per `gtobj.taxa` entry, in that order -/
 def meanBV (le : (L × Option G) → (L × Option G) → Bool) (useGrp : Bool) (t : Nat) (recs : List (Rec L G α))
@@ -266,6 +277,28 @@ def meanBVNoGt (le : (L × Option G) → (L × Option G) → Bool) (useGrp : Boo
     List L × Option (List G) × List (List α) :=
   let a := agg le useGrp t recs
   (a.map (·.1.1), (if useGrp && !(a.all (fun kv => kv.1.2.isNone)) then some (a.filterMap (·.1.2)) else none), a.map (·.2))
+
+
+/-! #### phenotype tables with missing values (NaN): pandas' group-by mean skips them (`skipna=True`) -/
+
+/-- per-column mean over the NON-missing entries of a group; a column without any value stays missing -/
+def colMeansNan (t : Nat) (rows : List (List (Option α))) : List (Option α) :=
+  (List.range t).map (fun j =>
+    let xs := rows.filterMap (fun r => (r[j]?).join)
+    if xs.isEmpty then none else some (mean xs))
+
+/-- `estimate` on a table whose trait cells may be NaN: one row per genotype taxon; an absent taxon is a row of NaN,
+    a phenotyped taxon is missing exactly in the traits for which none of its records has a value -/
+def meanBVNan (le : (L × Option G) → (L × Option G) → Bool) (useGrp : Bool) (t : Nat)
+    (recs : List (Rec L G (Option α))) (gtTaxa : List L) : List (List (Option α)) :=
+  gtTaxa.map (fun name =>
+    (lookupLast (aggWith (colMeansNan t) le useGrp recs) name).getD (List.replicate t none))
+
+/-- the same without genotype matrix: the aggregated frame -/
+def meanBVNanNoGt (le : (L × Option G) → (L × Option G) → Bool) (useGrp : Bool) (t : Nat)
+    (recs : List (Rec L G (Option α))) : List L × List (List (Option α)) :=
+  let a := aggWith (colMeansNan t) le useGrp recs
+  (a.map (·.1.1), a.map (·.2))
 
 end bv
 
